@@ -15,7 +15,7 @@ RULE = ('event sequences from boot over {ACCEPT/REFUSE of any pending attempt at
         'fingerprints reached (FSM state, timers with remaining time, connector/transport states, buffers, capabilities); '
         'after every new state 300 s of silent-peer time are appended and leaked connections looked for; close completion at the same instant and as a separate later event; searches from boot and from 6 prefix sessions (pending boot timer, stop / drop with the close still pending, restart on top of it)')
 ASSUMPTIONS = ['simulated Twisted reactor/connector/transport (verif/shims) reproduces Twisted semantics listed in DESIGN.md 2.1',
-               'REST requests are atomic events between reactor callbacks']
+               'REST requests are atomic events between reactor callbacks; in every second random walk 30 % of the events leave their instant unfinished (NAME~) and an operator request may land inside it (DESIGN.md 15.3)']
 SHARD_TIMEOUT = {'quick': 600, 'thorough': 1500}
 
 CFGS = {
